@@ -35,10 +35,13 @@ func NormalizeTree(
 	for _, url := range urls {
 		update, err := tree.InsertWithConvergenceIndication(url, &EmptyStruct{})
 		if err != nil {
+			// A URL the tree cannot hold (e.g. an empty path part) must not
+			// discard the whole batch: the error is only logged here, like in
+			// NormalizeURL, which later aggregates the record under its
+			// original URL when the tree has no match for it.
 			log.Error().
 				Err(err).
 				Msgf("Error updating tree with URL: %v", url)
-			return false, err
 		}
 		if !convergenceOccurred && update {
 			convergenceOccurred = update
